@@ -369,8 +369,12 @@ func (e *CoreExtension) filterSplit(value interface{}, args ...interface{}) (int
 	// Handle multiple character delimiters (split on any character in the delimiter)
 	if len(delimiter) > 1 {
 		// Convert delimiter string to a regex character class
-		pattern := "[" + regexp.QuoteMeta(delimiter) + "]"
-		re := regexp.MustCompile(pattern)
+		// (QuoteMeta leaves "-" alone, which inside a class would make "z-a" an invalid range)
+		pattern := "[" + strings.ReplaceAll(regexp.QuoteMeta(delimiter), "-", `\-`) + "]"
+		re, err := regexp.Compile(pattern)
+		if err != nil {
+			return nil, err
+		}
 
 		if limit > 0 {
 			// Manual split with limit
